@@ -228,7 +228,7 @@ func drive(g geom, nPub int, mode logMode, scripts [][]cop, procs int, yield *ra
 		for _, b := range cr.held {
 			focus = append(focus, b)
 		}
-		n, cls, desc := compareAttribution(g, nPub, listOf(cr.held), lm, focus, func(n int) int { return yield.IntN(n) })
+		n, cls, desc := compareAttribution(g, pubNames(nPub), listOf(cr.held), lm, focus, func(n int) int { return yield.IntN(n) })
 		run.Count("attribution_probes_concurrent_final", n)
 		if cls != "" {
 			cr.sk.report(compLog, "attribution-after-concurrent-run", cls, "after the run, log replayed by record timestamp: "+desc)
